@@ -151,7 +151,11 @@ impl Prune {
         })
     }
     pub fn stops(&self, v: &Violation) -> bool {
-        self.prop.is_empty() || v.prop == self.prop || v.prop == "C08" || self.is_known(v)
+        // structural damage after which executing further calls on this cache would
+        // run on memory that cannot be trusted (a leaked node alone is not that)
+        let unsafe_to_continue = v.prop == "C08"
+            && ["dangling", "malformed", "panic", "drop-protocol", "wrong-deque", "mismatch"].iter().any(|s| v.sig.contains(s));
+        self.prop.is_empty() || v.prop == self.prop || unsafe_to_continue || self.is_known(v)
     }
 }
 
@@ -416,6 +420,29 @@ pub fn replay(w: &str) -> Vec<Violation> {
         }
     }
     drop(sut);
+    if cfg.pure_check && matches!(ops.last(), Some(Op::Con(_)) | Some(Op::Iter)) {
+        // C15: the last call is the pure call under test; compare with the run without it
+        let base = &ops[..ops.len() - 1];
+        let p = *ops.last().unwrap();
+        let u = cfg.kind == Kind::U;
+        let forced = u && matches!(p, Op::Con(_));
+        let run = |with: bool| -> u128 {
+            let (mut s2, vid) = rebuild(&cfg, &hasher, base);
+            if with {
+                s2.apply(&cfg, p, vid);
+            }
+            if forced {
+                s2.apply(&cfg, Op::Inv(cfg.nkeys), vid);
+            }
+            impl_fp(&s2.snapshot(), s2.clock().now())
+        };
+        if run(true) != run(false) {
+            let sig = format!("{}:impure:{}", if u { "U" } else { "S" }, p.kind());
+            println!("      VIOLATED C15 [{sig}]: {} changed the internal state", p.text());
+            all.push(Violation { prop: "C15", sig, detail: format!("{} changed the internal state", p.text()), witness: String::new() });
+        }
+        tracker().reset();
+    }
     let (lk, lv) = tracker().live();
     if lk != 0 || lv != 0 {
         println!("      VIOLATED C11 [leak-after-drop]: {lk} keys, {lv} values alive after drop");
